@@ -121,9 +121,17 @@ func newC06World(c *mon.Case, refc bool, delay time.Duration, outcome func(strin
 		opts = append(opts, keyed.WithReleaseDelay[string, int](delay))
 	}
 	if refc {
-		w.rc = keyed.NewKeyedRefCount(w.ctorCb, opts...)
+		if c.Index%4 == 3 {
+			w.rc = keyed.NewKeyedRefCountWithLogger(w.ctorCb, discardLogger(), opts...)
+		} else {
+			w.rc = keyed.NewKeyedRefCount(w.ctorCb, opts...)
+		}
 	} else {
-		w.k = keyed.NewKeyed(w.ctorCb, opts...)
+		if c.Index%4 == 3 {
+			w.k = keyed.NewKeyedWithLogger(w.ctorCb, discardLogger(), opts...)
+		} else {
+			w.k = keyed.NewKeyed(w.ctorCb, opts...)
+		}
 	}
 	return w
 }
@@ -798,7 +806,12 @@ func newK7World(c *mon.Case, retry bool, delay time.Duration, behave func(int, s
 	if delay != 0 {
 		opts = append(opts, keyed.WithReleaseDelay[string, int](delay))
 	}
-	w.k = keyed.NewKeyed(w.ctor, opts...)
+	if c.Index%4 == 3 {
+		// the logging constructors only add an exit callback that logs
+		w.k = keyed.NewKeyedWithLogger(w.ctor, discardLogger(), opts...)
+	} else {
+		w.k = keyed.NewKeyed(w.ctor, opts...)
+	}
 	return w
 }
 
